@@ -24,7 +24,12 @@ func (Prop) Configs(tier string) []string {
 	// bn256 dispatch: amd64 assembly with ADX/BMI2 (default), table select without AVX2, non-ADX assembly, generic Go.
 	return []string{"c-default", "c-noavx2", "c-nobmi2", "c-purego"}
 }
-func (Prop) SelfTest() error { return sm9ref.SelfTest() }
+func (Prop) SelfTest() error {
+	if err := sm9ref.SelfTest(); err != nil {
+		return err
+	}
+	return sm9ref.SelfTestTower()
+}
 func (Prop) Rule() string {
 	return "Operand integrity: every exported operation taking G1/G2/GT elements as input (Add, Double, Neg, ScalarMult, Set, Equal, IsOnCurve, the encoders, String, Pair, Miller, ScalarMultGT, GenerateGTFieldTable) leaves each input semantically unchanged, for inputs in every representation the API produces (fresh = projective results of ScalarBaseMult/ScalarMult/Add/Neg, decoded = affine); encoder routes: compressed / uncompressed / plain encodings of fresh results are canonical and consistent with each other. " +
 		"E2 over the scalar alphabet S = {0..40, n-3..n+3, 2^k, 2^k±1 (k<256), every 4-bit window value at each of the 64 window positions, 2^256-1; thorough tier: plus every byte value at each of the 32 byte positions} " +
@@ -40,12 +45,23 @@ func (Prop) Rule() string {
 		"every input length below one element (error), tails (returned exactly), all 256 prefix bytes of compressed forms; " +
 		"oracle: accept <=> every coordinate of the leading element < p and the element is on the curve (reference affine predicate; GT: range only, non-members may be rejected or accepted), " +
 		"tail = rest, Marshal(result) = consumed prefix. " +
-		"distinct_nontrivial counts distinct (group, law, scalar / scalar pair / decoder input class) instances."
+		"distinct_nontrivial counts distinct (group, law, scalar / scalar pair / decoder input class) instances. " +
+		"Widening (widen*.go): scalar-shape: every byte length 0..34, 40, 47, 48, 63..65 (thorough 0..72, 96, 127..129) of the variable-length scalar of G1/G2.ScalarMult and ScalarMultGT x contents {zero, one, ff, chain, top bit, leading zeros, n and n-1 left-padded} x layouts {exact, ending at a PROT_NONE page, one dirty spare byte, 256 dirty spare bytes, middle field of a record at an odd offset, nil}: G1/G2.ScalarMult must accept lengths 1..32 and every entry point 32 bytes, other lengths succeed or are refused, an accepted call returns [int(scalar) mod n]P, the caller's array is unchanged; the fixed-length entry points in every layout and every length 0..72 other than 32 refused; big.Int exponents 2^256..n^2..2^512-1; NormalizeScalar(s) is 32 bytes congruent to s mod n and does not write to the caller's array. " +
+		"random: RandomG1/G2/GT under 12 scripted streams (first acceptable block after 0, n, n+1, 2^256-1; leading zero bytes) x 8 reader behaviours: no error without a fault, 1 <= k < n, element = [k]generator, earlier results unaffected by later calls. " +
+		"own: every encoder of every element source three times with the previous result overwritten (no shared memory between results); decoded elements independent of the input buffer, inputs in every layout, no access beyond len; big.Int and scalar arguments unchanged; for every element-returning function (Add, Double, Neg, Set, ScalarMult, ScalarBaseMult for every window value of the lowest and highest table row, Pair and Miller for generators / infinity / generic arguments, ScalarMultGT, ScalarBaseMultGT for table rows) the result is overwritten in place by every mutating method and then the operands, Gen1, Gen2, Order, OrderBytes, all 64 rows of the three generator tables and a second call are unchanged; a GT table is independent of its base object. " +
+		"alias: Add with destination/operand patterns {fresh, used, dst=a, dst=b, a=b, dst=a=b} over all ordered pairs of 13 (G2 12, GT 11) element sources incl. three representations of the identity; Double, Neg, Set, ScalarMult with dst=a and used destination. " +
+		"history: every ordered pair (thorough: triple) of 41 (G2 41, GT 27) receiver-writing / receiver-reading operations incl. 8-10 failing decodes on one object starting from the zero value; value afterwards observed through compressed encoding, IsOnCurve, the pairing or a windowed power, a sum, and Marshal. " +
+		"special: G1 points constructed from coordinates (x or y in {0..24, p-1..p-25, 2^k, 2^k+-1, p-2^k, (p+-1)/2}, Montgomery form of x or y with every limb in {0,1,2^63,2^64-1} (thorough also 2^32-1, 2^64-2^32), p-1..p-3, 2^256-p): decoders, Add/Double/Neg/ScalarMult/encoders against the affine reference, pairing linear in the point; abscissae without a point refused; G2 decoders on twist points with x components from a 13 (thorough 21) value boundary set squared. " +
+		"field: members g^k through every GT route and Pair against the reference tower F_p^12 (products and powers computed from the encoded bytes); products of two different decoded F_p^12 elements with boundary coordinates (alone, inside a generic element, next to the identity, all coordinates) against the reference product."
 }
 func (Prop) Assumptions() []string {
 	return []string{
-		"G2, GT and the pairing are not re-implemented: they are checked as algebraic laws between different computation routes of the real code (table/window routes vs plain double-and-add and square-and-multiply) and anchored by the GM/T 0044.5 annex values; a defect shared by every route and invisible to the annex values would be missed",
+		"the pairing is not re-implemented: it is checked by bilinearity / non-degeneracy laws against powers of e(P1,P2) and anchored by the GM/T 0044.5 annex values; in the original families G2 and GT are checked as laws between computation routes of the real code (table/window routes vs plain double-and-add and square-and-multiply); the widening families compare G2 with an affine chord-and-tangent reference on the twist over F_p^2 and GT products/powers with a schoolbook reference of the 1-2-4-12 tower (verif/ref/sm9ref/tower.go, anchored by g^r = w, [ks]P2 = Ppub-s and [t2]P2 = deB of the annexes)",
 		"G1 is checked against independent affine big-integer arithmetic (verif/ref/ecref) and F_p^2 on-curve / squareness predicates (verif/ref/sm9ref)",
+		"GT.Unmarshal accepts every 12-tuple of coordinates below p; of such non-members only the product of two different elements (GT.Add, the field multiplication) is compared with the reference, no squaring or power",
+		"constructed G2 points (chosen coordinates) are offered to the decoders only: they are on the twist but in general outside the order-n subgroup",
+		"scalars of other lengths than 32 bytes: ScalarMult / ScalarMultGT may refuse the empty scalar and scalars longer than 32 bytes, but what they accept is read as a big-endian integer; G1.MarshalCompressed of the point at infinity is documented as undefined and never called on it; G1/G2.Equal compares representations, not group elements, and is only checked for leaving its operands unchanged",
+		"after a failing decode the receiver holds an unspecified value: only operations that do not read the receiver are enumerated next",
 		"decoder oracle for G2 requires 'on the twist curve' only; membership in the order-n subgroup of the twist (cofactor 2p-n) is neither required by the property statement nor checked by the library, and GT.Unmarshal is required to check coordinate ranges only",
 		"compressed point at infinity: G1.MarshalCompressed documents it as undefined, so prefix||0..0 offered to G1.UnmarshalCompressed may be rejected or decoded as infinity and its re-encoding is not compared; for G2 the form 03||0..0 (what G2.MarshalCompressed(infinity) returns and the repository's own test round-trips) must decode to infinity, 02||0..0 may be rejected or accepted but must then re-encode to itself",
 		"scalars are enumerated from the declared alphabet (about 1750 values), not all of [0,2^256)",
@@ -243,6 +259,7 @@ func (Prop) Run(c *engine.Ctx) {
 	runIdentity(c)
 	runBilinear(c)
 	runDecoders(c)
+	runWiden(c)
 }
 
 // ---------------------------------------------------------------------------------------------
